@@ -13,6 +13,7 @@ import (
 	"time"
 
 	"verif/sim/core"
+	_ "verif/sim/worlds/brk"
 	_ "verif/sim/worlds/conn"
 	_ "verif/sim/worlds/lib"
 )
